@@ -75,6 +75,47 @@ def case_edits(W, cfg):
         for frm in layout:
             a = W.data("a", (2, plen(frm, N)))
             da = xr.DataArray(a, dims=["t", dims[frm]])
+            if frm == "center" and len(layout) > 1:
+                # the same classes of edits on a user function applied as a grid ufunc
+                from xgcm.grid_ufunc import apply_as_grid_ufunc
+                to0 = [p for p in layout if p != "center"][0]
+                lacking = [p for p in allpos if p not in layout]
+                k = plen(to0, N) - N  # length change centre -> to0
+                width = {"left": (1, 0), "right": (0, 1), "outer": (1, 1), "inner": (0, 0)}[to0]
+
+                def fn(x):
+                    return x[..., 1:] - x[..., :-1]
+                sig = "(X:center)->(X:%s)" % to0
+
+                def call(*args, axis=(("X",),), signature=sig, method=True, **kw):
+                    kw.setdefault("boundary_width", {"X": width})
+                    if method:
+                        return grid.apply_as_grid_ufunc(fn, *args, axis=list(axis), signature=signature, **kw)
+                    return apply_as_grid_ufunc(fn, *args, axis=list(axis), grid=grid, signature=signature, **kw)
+                for method in (True, False):
+                    try:
+                        with warnings.catch_warnings():
+                            warnings.simplefilter("ignore")
+                            r = call(da, method=method)
+                        W.require("valid-call-answered", isinstance(r, xr.DataArray), "ufunc %s" % sig)
+                    except Exception as e:  # noqa
+                        W.require("valid-call-answered", False, "ufunc %s raised %s: %s" % (sig, type(e).__name__, str(e)[:120]))
+                    must_raise(W, "ufunc-axis-the-grid-lacks", lambda: call(da, axis=(("Q",),), method=method), "ufunc along axis 'Q'")
+                    must_raise(W, "ufunc-inputs-on-the-wrong-positions", lambda: call(da, signature="(X:%s)->(X:center)" % to0, method=method), "ufunc: centre data for signature input %s" % to0)
+                    must_raise(W, "ufunc-inputs-in-the-wrong-number", lambda: call(da, da, method=method), "ufunc: two inputs for a one-input signature")
+                    must_raise(W, "ufunc-inputs-in-the-wrong-number", lambda: call(method=method), "ufunc: no input for a one-input signature")
+                    must_raise(W, "ufunc-inputs-in-the-wrong-number", lambda: call(da, axis=(("X",), ("X",)), method=method), "ufunc: two axis entries for one input")
+                    must_raise(W, "ufunc-inputs-in-the-wrong-number", lambda: call(da, axis=(("X", "Y"),), method=method), "ufunc: two axes for a one-axis argument")
+                    for q in lacking[:2]:
+                        must_raise(W, "ufunc-position-the-axis-lacks", lambda q=q: call(da, signature="(X:center)->(X:%s)" % q, method=method), "ufunc: output position %s on layout %s" % (q, layout))
+                        must_raise(W, "ufunc-position-the-axis-lacks", lambda q=q: call(da, signature="(X:%s)->(X:center)" % q, method=method), "ufunc: input position %s on layout %s" % (q, layout))
+                    for w in BAD_POS[:4]:
+                        must_raise(W, "ufunc-unknown-position-word", lambda w=w: call(da, signature="(X:center)->(X:%s)" % w, method=method), "ufunc signature position %r" % w)
+                    for w in BAD_WORDS[:4]:
+                        if width != (0, 0):
+                            must_raise(W, "ufunc-unknown-boundary-word", lambda w=w: call(da, boundary=w, method=method), "ufunc boundary=%r" % w)
+                # a vector component keyed by an axis the grid lacks
+                must_raise(W, "axis-the-grid-lacks", lambda: grid.diff({"Q": da}, "X", to=to0), "diff of {'Q': component}")
             for op in ("diff", "interp", "min", "max", "cumsum"):
                 f = getattr(grid, op)
                 # a valid call exists for this source position?
@@ -107,6 +148,9 @@ def case_edits(W, cfg):
                     for w in BAD_WORDS:
                         must_raise(W, "unknown-boundary-word", lambda w=w: f(da, "X", to=valid_to[0], boundary=w), "%s boundary=%r" % (op, w))
                         must_raise(W, "unknown-boundary-word", lambda w=w: f(da, "X", to=valid_to[0], boundary={"X": w}), "%s boundary={'X': %r}" % (op, w))
+                        # the valid call boundary={'X': 'fill', 'Y': 'extend'} with one of its two words replaced
+                        must_raise(W, "unknown-boundary-word", lambda w=w: f(da, "X", to=valid_to[0], boundary={"X": w, "Y": "extend"}), "%s boundary={'X': %r, 'Y': 'extend'}" % (op, w))
+                        must_raise(W, "unknown-boundary-word", lambda w=w: f(da, "X", to=valid_to[0], boundary={"X": "fill", "Y": w}), "%s along X with boundary={'X': 'fill', 'Y': %r}" % (op, w))
 
 
 def case_metric_edits(W, cfg):
